@@ -182,7 +182,7 @@ func (rt *runtime) newError(name string, message Value, stackFramesToPop int) *o
 	obj := rt.newErrorObject(name, message, stackFramesToPop)
 	obj.prototype = rt.global.ErrorPrototype
 	if name != "" {
-		obj.defineProperty("name", stringValue(name), 0o111, false)
+		obj.defineProperty("name", stringValue(name), 0o101, false)
 	}
 	return obj
 }
